@@ -569,3 +569,14 @@ def run_thorough(ctx: Context) -> None:
                     cfg.render_path(cfg.find_path(e[1], cfg.exit.id) or []),
                 )
     ck.require_min("C04.S1", "functions testing for the error TLV", hits, 5)
+
+MANIFEST = {
+    "technique": "CFG must-pass-through (gates as edges) + constant propagation of every one-byte error code "
+    "through error_handler's CFG + def-use terms for the step checks",
+    "level_text": "Static, all-paths: decides for every CFG path/exit of handle_state_step, error_handler, the three pairing "
+    "generators and the four add/remove-pairing functions that an error TLV or wrong state can only raise (with the "
+    "documented class for each of the 256 one-byte codes) and that a step check follows every yield before the reply is "
+    "read. This is the property's whole mechanism; only TLV byte decoding is outside.",
+    "level_note": "Trusted: ast parse = what runs; TLV decoding (C15); decorators of the BLE functions treated as transparent; "
+    "a reply dict is what dict(TLV.decode_*) returns. Unrecognised restructurings end in ANALYSIS-ERROR (exit 2), not a pass.",
+}
